@@ -3,7 +3,7 @@
 @contract("pyrepseq.nn._comb_gen", props=["C01", "C03"], scope="comb_gen")
 def _comb_gen(seq: Str, max_edits: Nat) -> SetT(Str):
     raises(None)
-    loop("L378", "inv", modifies={"new_seq": JoinedListT(), "offset": Int},
+    loop("loop3", "inv", modifies={"new_seq": JoinedListT(), "offset": Int},
          inv=[0 <= offset and offset <= len(seq),
               offset == (0 if _i == 0 else index_at(indexes, _i - 1) + 1),
               joined(new_seq) + delvar(seq, indexes, _i, offset) == delvar(seq, indexes, 0, 0)])
@@ -15,3 +15,158 @@ def _comb_gen(seq: Str, max_edits: Nat) -> SetT(Str):
                                            member(result, v, del_count(seq, v), del_index(seq, v)))),
             name="post[complete]")
     returns(del_set(seq, max_edits), assume_only=True)
+
+
+@predicate
+def symdel_index_ok(d, seqs, k, upto):
+    # d maps each deletion variant to the strictly increasing list of exactly the positions (< upto) having it
+    return (forall(TStr, lambda v: implies(v in d, len(d[v]) >= 1 and forall(TInt, lambda q: implies(
+                0 <= q and q < len(d[v]), 0 <= d[v][q] and d[v][q] < upto and in_del(v, seqs[d[v][q]], k)))))
+            and forall(TStr, TInt, TInt, lambda v, q, q2: implies(v in d and 0 <= q and q < q2 and q2 < len(d[v]), d[v][q] < d[v][q2]))
+            and forall(TStr, TInt, lambda v, p: implies(0 <= p and p < upto and in_del(v, seqs[p], k),
+                                                        v in d and exists(TInt, lambda q: 0 <= q and q < len(d[v]) and d[v][q] == p))))
+
+
+@contract("pyrepseq.nn.SymdelDB.__init__", props=["C01", "C03"], scope="symdeldb_init")
+def SymdelDB__init__(self: Inst("SymdelDB"), seqs: OneOf(Seq(Str, "list"), Seq(Str, "ndarray"), SeriesT(Str, "int")), max_edits: Nat):
+    raises(None)
+    field("variant_dict", DictT(Str, Seq(Nat)))
+    loop("loop1", "inv", modifies={"self.variant_dict": DictT(Str, Seq(Nat))},
+         inv=[symdel_index_ok(self.variant_dict, seqs, max_edits, _i)])
+    loop("loop2", "inv", modifies={"self.variant_dict": DictT(Str, Seq(Nat))},
+         inv=[forall(TStr, lambda v: implies(v in self.variant_dict, len(self.variant_dict[v]) >= 1 and forall(TInt, lambda q: implies(
+                  0 <= q and q < len(self.variant_dict[v]),
+                  0 <= self.variant_dict[v][q] and self.variant_dict[v][q] <= i
+                  and in_del(v, seqs[self.variant_dict[v][q]], max_edits)
+                  and implies(self.variant_dict[v][q] == i, v in _done))))),
+              forall(TStr, TInt, TInt, lambda v, q, q2: implies(
+                  v in self.variant_dict and 0 <= q and q < q2 and q2 < len(self.variant_dict[v]),
+                  self.variant_dict[v][q] < self.variant_dict[v][q2])),
+              forall(TStr, TInt, lambda v, p: implies(
+                  (0 <= p and p < i and in_del(v, seqs[p], max_edits)) or (p == i and v in _done),
+                  v in self.variant_dict and exists(TInt, lambda q: 0 <= q and q < len(self.variant_dict[v])
+                                                    and self.variant_dict[v][q] == p,
+                                                    hints=[len(self.variant_dict[v]) - 1])))])
+    sets("seqs", as_array(seqs))      # a positional array: later look-ups are by position for every container kind
+    sets("max_edits", max_edits)
+    ensures(symdel_index_ok(self.variant_dict, seqs, max_edits, len(seqs)), name="post[index]")
+    # Skolemised form of the last conjunct of post[index] (callers name the witness position)
+    skolem_ensures(forall(TStr, TInt, lambda v, p: implies(
+        0 <= p and p < len(seqs) and in_del(v, seqs[p], max_edits),
+        0 <= vd_pos(self, v, p) and vd_pos(self, v, p) < len(self.variant_dict[v]) and self.variant_dict[v][vd_pos(self, v, p)] == p)))
+
+
+@contract("pyrepseq.nn._hamming_replacement", props=["C07"], scope="string_pairs")
+def _hamming_replacement(seq_a: Str, seq_b: Str):
+    raises(None)
+    returns(ham(seq_a, seq_b) if len(seq_a) == len(seq_b) else float("inf"))
+
+
+@predicate
+def is_neighbor(a, b, mode, k, maxcd):
+    # the property's neighbour relation in the three modes
+    return ((lev(a, b) <= k) if mode is None else
+            (len(a) == len(b) and ham(a, b) <= k) if mode == "hamming" else
+            (lev(a, b) <= k and mode(a, b) <= maxcd))
+
+
+@predicate
+def neighbor_value(a, b, mode):
+    return lev(a, b) if mode is None else (ham(a, b) if mode == "hamming" else mode(a, b))
+
+
+@predicate
+def common_variant(a, b, mode, k):
+    return common_del_h(a, b, k) if mode == "hamming" else common_del(a, b, k)
+
+
+@contract("pyrepseq.nn.symdel", props=["C01", "C03", "C07", "C10", "C14"], scope="search_calls")
+def symdel(seqs: OneOf(Seq(Str, "list"), Seq(Str, "ndarray"), SeriesT(Str, "int")), max_edits: Int, max_returns: NoneType, n_cpu: Int,
+           custom_distance: OneOf(NoneType, Const("hamming"), FnT(Str, Str, returns=RealT(lo=0), symmetric=True, zero_diag=True)),
+           max_custom_distance: OneOf(Const(float("inf")), RealT(lo=0)),
+           output_type: OneOf(Const("triplets"), Const("coo_matrix")),
+           seqs2: OneOf(NoneType, Seq(Str, "list"), SeriesT(Str, "int")), progress: Const(False)):
+    raises("AssertionError", when=not valid_search_args(seqs, max_edits, max_returns, n_cpu, custom_distance,
+                                                         max_custom_distance, output_type, seqs2))
+    # --- one collection: ordered pairs of distinct positions ---------------------------------------------
+    ensures(forall_in(triplets_of(result), lambda t: 0 <= t[0] and t[0] < len(seqs) and 0 <= t[1] and t[1] < len(seqs) and t[0] != t[1]
+                      and is_neighbor(seqs[t[0]], seqs[t[1]], custom_distance, max_edits, max_custom_distance)
+                      and t[2] == neighbor_value(seqs[t[0]], seqs[t[1]], custom_distance))
+            if seqs2 is None else True, name="post[self: sound]")
+    ensures(forall(TInt, TInt, lambda i, j: implies(
+        0 <= i and i < len(seqs) and 0 <= j and j < len(seqs) and i != j
+        and is_neighbor(seqs[i], seqs[j], custom_distance, max_edits, max_custom_distance),
+        member(triplets_of(result), (i, j, neighbor_value(seqs[i], seqs[j], custom_distance)),
+               common_variant(seqs[i], seqs[j], custom_distance, max_edits),
+               vd_pos(local("symdeldb"), common_variant(seqs[i], seqs[j], custom_distance, max_edits), i if i < j else j),
+               vd_pos(local("symdeldb"), common_variant(seqs[i], seqs[j], custom_distance, max_edits), j if i < j else i))))
+            if seqs2 is None else True, name="post[self: complete]")
+    ensures(is_setlike(triplets_of(result)) and functional_on(triplets_of(result), lambda t: (t[0], t[1]))
+            if seqs2 is None else True, name="post[self: each pair once]")
+    # --- two collections: (q, r, d) with q a query position (seqs2) and r a reference position (seqs) ----
+    ensures(bag_equal(triplets_of(result), neighbor_triplets(
+        seqs2, seqs, lambda a, b: is_neighbor(a, b, custom_distance, max_edits, max_custom_distance),
+        lambda a, b: neighbor_value(a, b, custom_distance))) and is_setlike(triplets_of(result))
+            if seqs2 is not None else True, name="post[two collections]")
+    ensures(output_kind(result) == output_type and
+            (output_type == "triplets" or output_shape(result) == (len(seqs), len(seqs) if seqs2 is None else len(seqs2))),
+            name="post[output form]")
+    # what callers may use (equivalent to the clauses above): the specified triplet set in the requested form
+    returns(search_output(neighbor_triplets(
+        seqs if seqs2 is None else seqs2, seqs,
+        lambda a, b: is_neighbor(a, b, custom_distance, max_edits, max_custom_distance),
+        lambda a, b: neighbor_value(a, b, custom_distance), seqs2 is None), output_type, seqs, seqs2), assume_only=True)
+
+
+@contract("pyrepseq.nn.SymdelDB.lookup", props=["C03", "C07", "C10", "C14"], scope="symdeldb_lookup")
+def SymdelDB_lookup(self: Inst("SymdelDB", seqs=Seq(Str, "ndarray"), max_edits=Nat, variant_dict=DictT(Str, Seq(Nat))),
+                    seqs2: OneOf(Seq(Str, "list"), Seq(Str, "ndarray"), SeriesT(Str, "int")),
+                    custom_distance: OneOf(NoneType, Const("hamming"), FnT(Str, Str, returns=RealT(lo=0), symmetric=True, zero_diag=True)),
+                    max_custom_distance: OneOf(Const(float("inf")), RealT(lo=0)),
+                    output_type: OneOf(Const("triplets"), Const("coo_matrix")), progress: Const(False)):
+    # class invariant established by __init__
+    requires(symdel_index_ok(self.variant_dict, self.seqs, self.max_edits, len(self.seqs)))
+    # Skolemised form of the invariant's last conjunct (vd_pos names the witness position; sound: it exists)
+    requires(forall(TStr, TInt, lambda v, p: implies(
+        0 <= p and p < len(self.seqs) and in_del(v, self.seqs[p], self.max_edits),
+        0 <= vd_pos(self, v, p) and vd_pos(self, v, p) < len(self.variant_dict[v]) and self.variant_dict[v][vd_pos(self, v, p)] == p)),
+        name="index witness")
+    raises(None)
+    ensures(forall_in(triplets_of(result), lambda t: 0 <= t[0] and t[0] < len(seqs2) and 0 <= t[1] and t[1] < len(self.seqs)
+                      and is_neighbor(seqs2[t[0]], self.seqs[t[1]], custom_distance, self.max_edits, max_custom_distance)
+                      and t[2] == neighbor_value(seqs2[t[0]], self.seqs[t[1]], custom_distance)), name="post[sound]")
+    ensures(forall(TInt, TInt, lambda q, r: implies(
+        0 <= q and q < len(seqs2) and 0 <= r and r < len(self.seqs)
+        and is_neighbor(seqs2[q], self.seqs[r], custom_distance, self.max_edits, max_custom_distance),
+        # (the first conjunct only names the witnesses: common deletion variant and its list position)
+        # witnesses of the candidate step: the common deletion variant and the position of r in its index list
+        member(triplets_of(result), (q, r, neighbor_value(seqs2[q], self.seqs[r], custom_distance)), q, r,
+               inner=[(common_variant(seqs2[q], self.seqs[r], custom_distance, self.max_edits),
+                       vd_pos(self, common_variant(seqs2[q], self.seqs[r], custom_distance, self.max_edits), r))]))),
+            name="post[complete]")
+    ensures(no_duplicates(triplets_of(result), lambda t: (t[0], t[1])), name="post[each pair once]")
+    ensures(output_kind(result) == output_type and
+            (output_type == "triplets" or output_shape(result) == (len(self.seqs), len(seqs2))), name="post[output form]")
+    # frame: a lookup changes nothing, so any sequence of lookups answers like a fresh database
+    returns(search_output(neighbor_triplets(
+        seqs2, self.seqs, lambda a, b: is_neighbor(a, b, custom_distance, self.max_edits, max_custom_distance),
+        lambda a, b: neighbor_value(a, b, custom_distance)), output_type, self.seqs, seqs2), assume_only=True)
+
+
+@contract("pyrepseq.nn._outside_radius", inline=True, props=["C14", "C01", "C03", "C07"])
+def _outside_radius():
+    # four-line helper: inlined (its body is verified as part of symdel and SymdelDB.lookup)
+    note("inlined into its callers")
+
+
+@contract("pyrepseq.nn.nearest_neighbor", props=["C01", "C03", "C07", "C10", "C14"], scope="search_calls_nn")
+def nearest_neighbor(seqs: Seq(Str, "list"), max_edits: Int, max_returns: NoneType, n_cpu: Int,
+                     custom_distance: OneOf(NoneType, Const("hamming"), FnT(Str, Str, returns=RealT(lo=0), symmetric=True, zero_diag=True)),
+                     max_custom_distance: OneOf(Const(float("inf")), RealT(lo=0)),
+                     output_type: OneOf(Const("triplets"), Const("coo_matrix")),
+                     seqs2: OneOf(NoneType, Seq(Str, "list"))):
+    # behaves exactly as symdel on the same eight arguments (each bound to the same-named parameter)
+    raises("AssertionError", when=not valid_search_args(seqs, max_edits, max_returns, n_cpu, custom_distance,
+                                                         max_custom_distance, output_type, seqs2))
+    delegates("pyrepseq.nn.symdel", seqs=seqs, max_edits=max_edits, max_returns=max_returns, n_cpu=n_cpu,
+              custom_distance=custom_distance, max_custom_distance=max_custom_distance, output_type=output_type, seqs2=seqs2)
